@@ -63,7 +63,8 @@ Record cpair := {
   pv : bool -> list T -> list T -> res ext;              (* value of the side on the space with weights w *)
   pp : bool -> list T -> T -> list T -> res (list T);    (* proximal *)
   pg : bool -> list T -> list T -> res (list T);         (* gradient *)
-  ptag : bool -> nat }.                                  (* class tag of the side (Corr.shape) *)
+  ptag : bool -> nat;                                    (* class tag of the side (Corr.shape) *)
+  pw : list T -> bool }.                                 (* weights on which the pair lives (e.g. a power space) *)
 
 Inductive fexpr :=
 | FLp (p : pexp)                    (* L1Norm / L2Norm / LpNorm(inf) *)
